@@ -146,3 +146,56 @@ def check_volume_model(seeds=(0,), shape=(3, 4, 2)):
                                             'property_x / mu_r (no stale state)', case=case, mu_r=mu, epsilon_r=eps, seed=seed,
                                             how='contracts.c02_concrete.check_volume_model: VolumeModel, in-place edit of the model, VolumeModel again')
     return dict(reproduced=False, cases=cases)
+
+
+def check_solver_operator(seeds=(0,)):
+    """the operator the REAL solver applies (solver.residual directly, and the initial-residual test inside solver.solve with a supplied field and
+    a huge tolerance, which reports || s - A e || as abs_error) is the operator of the model GIVEN AT THAT CALL: compared with core.amat_x fed by a
+    fresh VolumeModel of the current model (both under contract above), along a history of in-place edits of the same Model object"""
+    import emg3d
+    from emg3d import core
+    cases = 0
+    for seed in seeds:
+        rng = np.random.default_rng(seed)
+        shape = (4, 4, 4)
+        grid = emg3d.TensorMesh([rng.uniform(0.5, 2.0, n) * 50 for n in shape], origin=(0, 0, 0))
+        for freq in (1.3, -2.1):
+            cplx = freq > 0
+            model = emg3d.Model(grid, property_x=rng.uniform(0.1, 3.0, shape), property_z=rng.uniform(0.1, 3.0, shape),
+                                mu_r=rng.uniform(0.5, 2.0, shape), mapping='Conductivity')
+            sf = emg3d.Field(grid, frequency=freq)
+            sf.field[:] = rng.standard_normal(sf.field.size) + (1j * rng.standard_normal(sf.field.size) if cplx else 0)
+            ef = emg3d.Field(grid, frequency=freq)
+            ef.field[:] = rng.standard_normal(ef.field.size) + (1j * rng.standard_normal(ef.field.size) if cplx else 0)
+            ef.fx[:, 0, :] = ef.fx[:, -1, :] = 0
+            ef.fx[:, :, 0] = ef.fx[:, :, -1] = 0
+            ef.fy[0, :, :] = ef.fy[-1, :, :] = 0
+            ef.fy[:, :, 0] = ef.fy[:, :, -1] = 0
+            ef.fz[0, :, :] = ef.fz[-1, :, :] = 0
+            ef.fz[:, 0, :] = ef.fz[:, -1, :] = 0
+
+            def reference():
+                vm = emg3d.models.VolumeModel(model, sf)
+                r = sf.copy()
+                core.amat_x(r.fx, r.fy, r.fz, ef.fx, ef.fy, ef.fz, vm.eta_x, vm.eta_y, vm.eta_z, vm.zeta, grid.h[0], grid.h[1], grid.h[2])
+                return float(np.linalg.norm(r.field))
+
+            def edits():
+                yield 'fresh model', lambda: None
+                yield 'after assigning property_x', lambda: setattr(model, 'property_x', rng.uniform(0.1, 3.0, shape))
+                yield 'after in-place edits of mu_r and property_z', lambda: (model.mu_r.__imul__(1.5), model.property_z.__setitem__(slice(0, 2), 7.0))
+            for what, edit in edits():
+                edit()
+                want = reference()
+                e2 = ef.copy()
+                info = emg3d.solve(model, sf, efield=e2, tol=1e30, return_info=True, verb=0, sslsolver=False, semicoarsening=False, linerelaxation=False)
+                got_solve = float(info['abs_error'])
+                got_res = float(emg3d.solver.residual(emg3d.models.VolumeModel(model, sf), sf, ef, True))
+                cases += 2
+                for name, got in (('solve (abs_error of the initial-residual test)', got_solve), ('solver.residual', got_res)):
+                    if abs(got - want) > 1e-9 * want:
+                        return dict(reproduced=True, cases=cases, clause='the operator applied by the solver is that of the model given at this call',
+                                    where=name, step=what, frequency=freq, got=got, expected=want, seed=seed,
+                                    how='contracts.c02_concrete.check_solver_operator: same Model object solved, edited in place, solved again; '
+                                        '|| s - A e || from the solver vs core.amat_x with a fresh VolumeModel of the current model')
+    return dict(reproduced=False, cases=cases)
